@@ -66,6 +66,7 @@ type StreamOpts struct {
 	Filters        *FilterSpec
 	NumDBs         int
 	NoUnknown      bool          // only commands of the generator's key table (keys always determinable)
+	VarKeyCmd      bool          // also VK.PICK, a target-only command whose key position varies (cluster doubles know it)
 	OnlyDB0        bool          // SELECT only ever selects database 0 (bidirectional replay)
 	KeyGen         func() []byte // optional key source (cluster harnesses control slots)
 }
@@ -248,6 +249,13 @@ func randCase(c *simrt.Chooser, s string) string {
 }
 
 func (g *gen) businessCmd() (string, [][]byte) {
+	if g.opts.VarKeyCmd && g.c.Choose("varkeycmd", 5) == 0 {
+		// a command only the target knows (COMMAND GETKEYS), whose key sits at a different position from call to call
+		pos := g.c.Choose("varkeypos", 3)
+		args := [][]byte{[]byte(strconv.Itoa(pos)), []byte("ALPHA"), []byte("DESC"), []byte("LIMIT")}
+		args[1+pos] = g.key()
+		return randCase(g.c, "vk.pick"), args
+	}
 	if !g.opts.NoUnknown && g.c.Choose("unknowncmd", 6) == 0 {
 		name := unknownCmds[g.c.Choose("ucmd", len(unknownCmds))]
 		n := g.c.Choose("uargs", 4)
